@@ -55,6 +55,9 @@ func (h *vH) buildOrdered(router RouteSelector, perm int) *Container {
 			if r.cond {
 				b.If(h.condFn(rid))
 			}
+			if r.noCT != nil {
+				b.AllowedMethodsWithoutContentType(r.noCT)
+			}
 			ws.Route(b)
 		}
 		c.Add(ws)
